@@ -182,7 +182,7 @@ def crossLine (j : Json) : String :=
   let sched : List Ev := (List.replicate 8 (Ev.step 0)) ++ (List.replicate 8 (Ev.step 1))
   let w := run cfg sched (init st reqs)
   let outs := w.ths.map (fun t => match t.outcome with | some o => o.name | none => "stuck")
-  s!"cross kind={jStr j "kind"} first={outs.getD 0 "?"} hostile=missing-param replay={outs.getD 1 "?"}"
+  s!"cross kind={jStr j "kind"} first={outs.getD 0 "?"} hostile=done replay={outs.getD 1 "?"}"
 
 def step (u : Unit) (j : Json) : Unit × List String :=
   match jStr j "op" with
